@@ -8,6 +8,11 @@ VERIF = os.path.dirname(os.path.dirname(os.path.abspath(__file__)))
 BASELINE_OFF = "/verif/tool/baseline.sh"
 
 CLAIMED = {
+    "C13": dict(
+        technique="static analysis: effect analysis of the OpenMP parallel-for (stores and callee closure), cache-coherence / co-update rule on the index maps, shape rule on resetACTNUM, writer/reader table agreement for EGRID (clang AST)",
+        text="Decides three structural clauses: (a) thread-count independence of the cell volumes - every iteration of the (only) OpenMP loop stores only to its own element or loop-local variables and its callee closure (depth 3) consists of const members and functions without static, global or mutable writes; (b) whoever writes one of ACTNUM / active count / active->global / global->active writes all four and invalidates the cached volumes, geometry writers outside construction invalidate the cache, and resetACTNUM builds mutually inverse maps (count-before-increment, -1 for inactive cells, every cell visited); (c) every EGRID array the readers require is written by EclipseGrid::save with the same element type and lengths cross from_si on save and to_si on load. Not decided: volumes, centres, depths, equivalence of input forms, additivity (numeric).",
+        note="Trusted: std:: callees are re-entrant; one allow-listed geometry writer (fixupZCORN, idempotent after construction).",
+        design="DESIGN.md §4 C13"),
     "C12": dict(
         technique="static analysis: index-role typing (active / global / input-box) of every subscript in FieldProps.cpp and FieldData.hpp, stride and coverage rules, call-site kind agreement, enumerator/keyword/arithmetic pairing tables (clang AST)",
         text="Decides the structural necessary condition of 'the value in an active cell never depends on which other cells are inactive': containers are only subscripted with an index of their own role; block strides of multi-value arrays are the cell count of that role; storage addressed by global index is filled while visiting all cells of the box, not only the active ones; generic primitives are called with storage and index list of the same kind; keyword names, ScalarOperation enumerators and arithmetic are paired correctly (ADD/MULTIPLY/EQUALS/MINVALUE/MAXVALUE); record-driven handlers update the box before taking an index list. Not decided: the sequential semantics cell by cell (reference interpreter; runtime).",
